@@ -331,6 +331,7 @@ def goal_text(g, maxp=1200):
     elif k == 'it':
         s = goal_text(g[1], 1049) + ' -> ' + goal_text(g[2], 1050)
     elif k == 'or':
+        assert g[1][0] != 'it', '(C -> T) ; E is if-then-else: use an ite node'
         s = goal_text(g[1], 1099) + ' ; ' + goal_text(g[2], 1100)
     elif k == 'ite':
         s = goal_text(g[1], 1049) + ' -> ' + goal_text(g[2], 1050) + ' ; ' + goal_text(g[3], 1100)
